@@ -257,6 +257,23 @@ static RunResult qr_execute(const Plan &plan)
 		}
 		if (op.kind == "card")
 		{
+			// C11: keys reset on import - a public and a secret key are re-imported into used objects holding another key
+			if (k >= 2)
+			{
+				size_t a = (size_t)op.arg(0) % k, b = (a + 1) % k;
+				TMCG_PublicKey used(ring.keys[b]); std::ostringstream o1; o1 << ring.keys[a]; std::istringstream in(o1.str() + "\n"); in >> used; std::ostringstream o2; o2 << used;
+				if ((!in.good() && !in.eof()) || o1.str() != o2.str() || mpz_cmp(used.m, ring.keys[a].m) || mpz_cmp(used.y, ring.keys[a].y)) violate("C11", "roundtrip_publickey_into_used", "public key imported into an object holding another key differs from the exported one");
+				TMCG_SecretKey useds(*sk[b]); std::ostringstream s1; s1 << *sk[a]; std::istringstream in2(s1.str() + "\n"); in2 >> useds; std::ostringstream s2; s2 << useds;
+				if ((!in2.good() && !in2.eof()) || s1.str() != s2.str()) violate("C11", "roundtrip_secretkey_into_used", "secret key imported into an object holding another key differs from the exported one");
+				else if (res.ok())
+				{
+					// the restored key still works: a signature made with it verifies under the public key
+					S.single_party = (int)a; std::string sig = useds.sign("restart"); 
+					if (!ring.keys[a].verify("restart", sig)) violate("C11", "restored_secretkey_unusable", "signature made with a re-imported secret key does not verify");
+				}
+				res.cnt["probe.key_roundtrips"]++;
+				if (!res.ok()) break;
+			}
 			CardRec r; r.c = TMCG_Card(k, w); r.type = (size_t)op.arg(0) % maxtype; r.masked = 0;
 			if (op.arg(1) >= 0)
 			{
